@@ -443,12 +443,12 @@ def generate_bufr_message(decoder, s, info_only=False, continue_on_error=False, 
                 bufr_message = decoder.process(
                     s[idx_start:], start_signature=None, info_only=info_only, *args, **kwargs
                 )
-            # If data section is not decoded, we rely on the declared length for the message length
-            if info_only:
+            # If data section is not decoded, we rely on the declared length for the message length.
+            # This is also the case for a message rejected by the filter.
+            if info_only or not matched:
                 bufr_message.serialized_bytes = s[idx_start: idx_start + bufr_message.length.value]
             else:
-                # A message rejected by the filter has not been fully decoded
-                if (matched and bufr_message.data_category.value == DATA_CATEGORY_DEFINE_BUFR_TABLES
+                if (bufr_message.data_category.value == DATA_CATEGORY_DEFINE_BUFR_TABLES
                         and bufr_message.n_subsets.value > 0):
                     _, b_entries, d_entries = BufrTableDefinitionProcessor().process(bufr_message)
                     TableGroupCacheManager.invalidate()
